@@ -85,7 +85,7 @@ def _roundtrip(case, V, st):
     tag = 'layout %s writer %r %s' % (lay, case['writer'], case['dtype'])
     try:
         def wfn(r):
-            g, c, t = setupCylindricalGrid(layout=lay, npts=list(RT_NPTS), comm=MPI.COMM_WORLD, dtype=dtype, allocateSaveMemory=True)
+            g, c, t = setupCylindricalGrid(layout=lay, npts=list(RT_NPTS), comm=MPI.COMM_WORLD, dtype=dtype, allocateSaveMemory=True, vMin=-6.1, rMin=0.3, zMin=7.0)
             l = g.getLayout(lay)
             setupSave(c, W)
             g.getAllData()[:] = _gfield(l, dtype) * 0 - 1
@@ -116,6 +116,10 @@ def _roundtrip(case, V, st):
                     probs.append('setupFromFile:time')
                 elif not np.array_equal(g.getAllData(), _gfield(l, dtype)):
                     probs.append('setupFromFile:data')
+                # the restarted run lives on the coordinates of the saved run (domain limits not symmetric, not starting at 0)
+                gref, cref, tref = setupCylindricalGrid(layout=lay, npts=list(RT_NPTS), comm=MPI.COMM_WORLD, dtype=dtype, vMin=-6.1, rMin=0.3, zMin=7.0)
+                if any(not np.array_equal(np.asarray(a), np.asarray(b)) for a, b in zip(g.eta_grid, gref.eta_grid)):
+                    probs.append('setupFromFile:coordinates')
                 g3, c3, t3 = setupFromFile(W, comm=MPI.COMM_WORLD, dtype=dtype, timepoint=0)
                 if t3 != 0 or not np.array_equal(g3.getAllData(), _gfield(g3.getLayout(g3.currentLayout), dtype) * 0 - 1):
                     probs.append('setupFromFile:requested-time')
@@ -331,7 +335,7 @@ def _restart(case, V, st):
     N = case['total']
     grid = case['grid']
     try:
-        sim.write_constants(os.path.join(d, 'c.json'), npts=NPTS, dt=2, iotaVal=0.0, eps=1e-3, m=2, n=1)
+        sim.write_constants(os.path.join(d, 'c.json'), npts=NPTS, dt=2, iotaVal=0.0, eps=1e-3, m=2, n=1, vMin=-6.1)          # velocity domain not symmetric about 0
         results = {}
         for comp in case['compositions']:
             folder = 'R' + '_'.join(map(str, comp))
